@@ -365,8 +365,46 @@ def rule_r4(chk, rid="C01-R4"):
            f"D = {unparse(d) if d is not None else '?'}", sm.loc(ms))
     # initial condition: false initials are zeroed in both modes
     zf = sm.func("zero_false_init_xi")
-    ok = "false_initials=[notiforiintrue_initials]" in squash(zf) and "init_xi[false_initials,...]=0" in squash(zf)
-    chk.ob(rid, "fords.simulators.zero_false_init_xi", ok, "state elements that are not true initial conditions start at zero", sm.loc(zf))
+    from .. import fin as _fin4
+
+    class _Arr(_fin4.FinObj):
+        """1-D / 2-D array of labelled cells; a boolean mask or an index list on the first axis selects rows"""
+        def __init__(self, rows):
+            super().__init__(rows=[list(r) for r in rows])
+        def _rows_of(self, k):
+            k0 = k[0] if isinstance(k, tuple) else k
+            if isinstance(k0, slice):
+                return list(range(*k0.indices(len(self.rows))))
+            k0 = list(k0)
+            if k0 and all(isinstance(x, bool) for x in k0):
+                if len(k0) != len(self.rows):
+                    raise _fin4.Raised("boolean index did not match")
+                return [i for i, x in enumerate(k0) if x]
+            return [int(x) for x in k0]
+        def __setitem__(self, k, v):
+            for i in self._rows_of(k):
+                self.rows[i] = [v] * len(self.rows[i])
+        def __mul__(self, o):
+            # multiplication is not assignment: 0 * x is x's NaN when x is missing, so the product keeps the label
+            o = list(o)
+            if len(o) != len(self.rows):
+                raise _fin4.Raised("operands could not be broadcast together")
+            self.rows = [[c if m_ in (1, True) and m_ is not False else f"{float(m_):g}*{c}" for c in r] for r, m_ in zip(self.rows, o)]
+            return self
+        __imul__ = __mul__
+    try:
+        bad = None
+        for flags in ((True, False, True, False), (False, False), (True, True, True), (False, True, True, False, True)):
+            arr = _Arr([[f"xi{i}v{j}" for j in range(2)] for i in range(len(flags))])
+            _fin4.run_function(zf, {params(zf)[0]: arr, params(zf)[1]: list(flags)}, {"_np.array": lambda x_, **k_: list(x_), "_np.logical_not": lambda x_: [not y_ for y_ in x_],
+                                                                                  "_np.where": lambda x_: ([i for i, y_ in enumerate(x_) if y_],), "_np.nonzero": lambda x_: ([i for i, y_ in enumerate(x_) if y_],)})
+            want = [[f"xi{i}v{j}" for j in range(2)] if fl else [0, 0] for i, fl in enumerate(flags)]
+            if arr.rows != want:
+                bad = f"true initial conditions {flags}: the state becomes {arr.rows}, expected exactly the other elements zeroed: {want}"
+                break
+        chk.ob(rid, "fords.simulators.zero_false_init_xi", bad is None, bad or "state elements that are not true initial conditions start at zero", sm.loc(zf), sure=True)
+    except (_fin4.NotFinite, _fin4.Raised, TypeError, AttributeError, IndexError) as ex:
+        chk.undecided(rid, "fords.simulators.zero_false_init_xi", f"not finitely evaluable: {type(ex).__name__}: {ex}", sm.loc(zf))
 
 
 def rule_r5(chk):
